@@ -114,7 +114,7 @@ func init() {
 			for ti, tv := range bindingTargets() {
 				ti, tv := ti, tv
 				n := reflect.TypeOf(tv).Elem().NumField()
-				full := tier == "thorough" || n <= 4
+				full := true
 				us = append(us, core.Unit{Name: fmt.Sprintf("defs:B%d", ti+1), Cost: n * n * 10, Run: func(c *core.Ctx) {
 					tm, nm, _ := Maps(tv)
 					perms := permutations(n)
